@@ -4,12 +4,17 @@ import hashlib
 import json
 import os
 import sys
+import time
 
 sys.path.insert(0, os.path.dirname(os.path.abspath(__file__)))
 import c18  # noqa: E402
 
 d = json.load(sys.stdin)
 c18._warm()
-r = c18.observe(c18.build(d), 4242)
+# the second interpreter of a pair starts its operation in another wall-clock second (C18_WORKER_DELAY, set by c18_pool.py): the pair
+# then differs in PYTHONHASHSEED, process id AND time of day
+time.sleep(float(os.environ.get("C18_WORKER_DELAY", "0") or 0))
+# kinds with a recorded known leak run with it neutralised (fixed seeds for unseeded generators), see c18.LEAK_KINDS
+r = c18.observe(c18.build(d), 4242, neutral=d.get("kind") in c18.LEAK_KINDS)
 txt = json.dumps(r["out"], sort_keys=True, default=str)
 print("OUT:" + hashlib.sha1(txt.encode()).hexdigest() + ":" + txt[:600].replace("\n", " "))
